@@ -121,7 +121,7 @@ def make_replay(verif, pid, r, oid):
     inputs = harness_inputs(trace)
     fam = family_of(u.id)
     native = None
-    if fam and (inputs or oid.endswith('.reachability.normal_return') or fam.get('src') in ('replay_bt.cpp', 'replay_fp.cpp', 'replay_ili.cpp', 'replay_nest.cpp', 'replay_c19.cpp', 'replay_dname.cpp', 'replay_ip.cpp', 'replay_c16.cpp', 'replay_c16f.cpp', 'replay_gz.cpp')):
+    if fam and (inputs or oid.endswith('.reachability.normal_return') or fam.get('src') in ('replay_bt.cpp', 'replay_fp.cpp', 'replay_ili.cpp', 'replay_nest.cpp', 'replay_c19.cpp', 'replay_dname.cpp', 'replay_ip.cpp', 'replay_c16.cpp', 'replay_c16f.cpp', 'replay_gz.cpp', 'replay_c13x.cpp')):
         native = run_native(verif, fam, u.id, inputs)
     confirmed = bool(native and native.get('ran') and native.get('misbehaves'))
     fn = re.sub(r'[^A-Za-z0-9_.@-]', '_', '%s-%s-%s.json' % (pid, uid, oid))
@@ -365,6 +365,8 @@ FAMILIES['r.FilePreamble'] = {'name': 'fp', 'src': 'replay_fp.cpp', 'argv': lamb
 
 FAMILIES['out.gzip.write_gzip'] = {'name': 'gz', 'src': 'replay_gz.cpp', 'argv': lambda u, i: [max(i.get('a_in', 0), 32 << 20)]}
 
+FAMILIES['out.file.rotate_output.c13'] = {'name': 'c13x', 'src': 'replay_c13x.cpp', 'argv': lambda u, i: ['name2fd']}
+FAMILIES['out.fd.rotate_output.c13'] = {'name': 'c13x', 'src': 'replay_c13x.cpp', 'argv': lambda u, i: ['fd2name']}
 FAMILIES['out.file.rotate_output.c16'] = {'name': 'c16f', 'src': 'replay_c16f.cpp', 'argv': lambda u, i: []}
 FAMILIES['out.gzip.rotate_output.c16'] = {'name': 'c16', 'src': 'replay_c16.cpp', 'argv': lambda u, i: []}
 
